@@ -409,6 +409,58 @@ Proof.
   crunch; reflexivity.
 Qed.
 
+
+(* ---- C03: access records and disconnects, per step ---- *)
+Fixpoint logs (o : list out) : nat :=
+  match o with [] => 0%nat | OLogAccess _ :: r => S (logs r) | _ :: r => logs r end.
+Fixpoint discs (o : list out) : nat :=
+  match o with [] => 0%nat | OPut _ RHttpDisconnect :: r => S (discs r) | _ :: r => discs r end.
+Fixpoint puts_of (o : list out) : nat :=
+  match o with [] => 0%nat | OPut _ _ :: r => S (puts_of r) | _ :: r => puts_of r end.
+(* the request has its access record: its response completed, or the stream was told it is closed *)
+Definition logged (st : hstate) (c : bool) : nat := if c then 1%nat else match st with HClosed => 1%nat | _ => 0%nat end.
+Definition b2n (b : bool) : nat := if b then 1%nat else 0%nat.
+
+Ltac exec4 := cbv -[validate_headers mem_version te_trailers suppress_body body_bytes headers_ok forallb link_ok
+                    TRAILERS_VERSIONS PUSH_VERSIONS EARLY_HINTS_VERSIONS map filter app B finals ends bodies logs discs puts_of Z.leb].
+
+(* trailers before the response start: known deviation F31 (no response head, no access record) *)
+Definition early_trailers (st : hstate) (m : option amsg) : Prop :=
+  match st, m with HRequest, Some (MTrailers _ _) => True | _, _ => False end.
+
+Lemma step_closure_app st (m : option amsg) :
+  has_app = true -> (st = HRequest \/ st = HClosed \/ has_resp = true) -> ~ early_trailers st m ->
+  let '(r', o, res) := rig_step (the_cfg names ssl) (IAppSend m) (mk st) in
+  (logs o + logged st closed = logged (hs_state (rg_stream r')) (hs_closed (rg_stream r')))%nat /\
+  (discs o + b2n closed = b2n (hs_closed (rg_stream r')))%nat /\ puts_of o = discs o /\
+  (closed = true -> res = Ok tt \/ exists e, res = Raise e /\ o = []) /\
+  hs_has_app (rg_stream r') = true /\
+  (hs_state (rg_stream r') = HRequest \/ hs_state (rg_stream r') = HClosed \/ hs_has_response (rg_stream r') = true) /\
+  shape_kept r'.
+Proof.
+  unfold mk, sc, shape_kept, early_trailers. intros HA HR NE. rewrite HA.
+  destruct m as [m|]; [destruct m|]; destruct st; try (exfalso; apply NE; exact I); clear NE;
+    destruct closed; destruct HR as [HR|[HR|HR]]; try discriminate; try rewrite HR;
+    exec4; crunch.
+  all: cbn [logs discs puts_of app logged b2n].
+  all: repeat split; try reflexivity; try lia; try congruence; auto; try (right; eexists; split; reflexivity).
+Qed.
+
+Lemma step_closure_handle st ev : not_request ev ->
+  has_app = true ->
+  let '(r', o, res) := rig_step (the_cfg names ssl) (IHandle ev) (mk st) in
+  (logs o + logged st closed = logged (hs_state (rg_stream r')) (hs_closed (rg_stream r')))%nat /\
+  (discs o + b2n closed = b2n (hs_closed (rg_stream r')))%nat /\
+  (closed = true -> o = []) /\
+  (discs o = 1%nat -> exists pre, o = pre ++ [OPut id RHttpDisconnect]) /\
+  hs_has_app (rg_stream r') = true /\ hs_has_response (rg_stream r') = has_resp /\ hs_state (rg_stream r') = st.
+Proof.
+  unfold mk, sc. intros NR HA. rewrite HA. destruct ev; try contradiction; destruct st; destruct closed; exec4; crunch.
+  all: cbn [logs discs puts_of app logged b2n].
+  all: repeat split; try reflexivity; try lia; try congruence; auto; try (intros; discriminate).
+  all: try (intros _; eexists [_]; reflexivity); try (intros _; exists []; reflexivity).
+Qed.
+
 Lemma step_handle_quiet st ev : not_request ev ->
   let '(r', o, res) := rig_step (the_cfg names ssl) (IHandle ev) (mk st) in
   ends o = 0%nat /\ bodies o = [] /\ finals o = 0%nat /\ hs_state (rg_stream r') = st /\ shape_kept r'.
@@ -685,4 +737,85 @@ Proof.
   change (37 =? 37) with true. cbv iota.
   rewrite (hex_val_hexd _ H1), (hex_val_hexd _ H2), IH by exact Fr.
   f_equal. pose proof (N.div_mod c 16). lia.
+Qed.
+
+(* ---------------------------------------------------------------- C03: exactly one access record, exactly one disconnect *)
+Lemma logs_app a b : logs (a ++ b) = (logs a + logs b)%nat.
+Proof. induction a as [|x r IH]; [reflexivity|]. simpl. destruct x; try exact IH. rewrite IH. reflexivity. Qed.
+Lemma discs_app a b : discs (a ++ b) = (discs a + discs b)%nat.
+Proof.
+  induction a as [|x r IH]; [reflexivity|]. simpl. destruct x as [i ev|i sc0|i m|st|e|c|w|w]; try exact IH.
+  destruct m; try exact IH. rewrite IH. reflexivity.
+Qed.
+
+Fixpoint run_state (cfg : hcfg) (r : rig) (is : list sinput) : rig :=
+  match is with
+  | [] => r
+  | i :: rest => let '(r', _, _) := rig_step cfg i r in run_state cfg r' rest
+  end.
+
+(* no http.response.trailers while the request is unanswered (the accepted-though-invalid place F31) *)
+Fixpoint no_early_trailers (cfg : hcfg) (r : rig) (is : list sinput) : Prop :=
+  match is with
+  | [] => True
+  | i :: rest =>
+      match i with IAppSend m => ~ early_trailers (hs_state (rg_stream r)) m | _ => True end /\
+      let '(r', _, _) := rig_step cfg i r in no_early_trailers cfg r' rest
+  end.
+
+Definition answerable (s : hstream) : Prop :=
+  hs_state s = HRequest \/ hs_state s = HClosed \/ hs_has_response s = true.
+
+(* However the application's messages (valid or not), the request body events and closure events
+   interleave: the access records written plus the one already due add up to the one due at the
+   end, and likewise for the disconnect message. *)
+Theorem closure_once_from names ssl : forall is r sc0,
+  quiet r -> hs_scope (rg_stream r) = Some sc0 -> drives_ok is ->
+  hs_has_app (rg_stream r) = true -> answerable (rg_stream r) -> no_early_trailers (the_cfg names ssl) r is ->
+  (logs (run_outs (the_cfg names ssl) r is) + logged (hs_state (rg_stream r)) (hs_closed (rg_stream r))
+   = logged (hs_state (rg_stream (run_state (the_cfg names ssl) r is))) (hs_closed (rg_stream (run_state (the_cfg names ssl) r is))))%nat /\
+  (discs (run_outs (the_cfg names ssl) r is) + b2n (hs_closed (rg_stream r))
+   = b2n (hs_closed (rg_stream (run_state (the_cfg names ssl) r is))))%nat.
+Proof.
+  induction is as [|i rest IH]; intros r sc0 Q S D HA AN NE; [simpl; split; lia|].
+  inversion D as [|? ? Di Dr]; subst. cbn [run_state run_outs no_early_trailers] in *. destruct NE as [NE1 NE2].
+  pose proof (quiet_rig_shape r sc0 Q S) as Hr.
+  destruct i as [ev|m].
+  - pose proof (step_closure_handle names ssl (hs_id (rg_stream r)) (hs_closed (rg_stream r)) (hs_has_app (rg_stream r))
+                  (hs_has_response (rg_stream r)) (hs_status (rg_stream r)) (hs_resp_trailers (rg_stream r))
+                  (sc_ws sc0) (sc_version sc0) (sc_method sc0) (sc_scheme sc0) (sc_path sc0) (sc_raw_path sc0) (sc_query sc0)
+                  (sc_headers sc0) (sc_ext_trailers sc0) (sc_ext_push sc0) (sc_ext_hint sc0) (sc_subprotocols sc0)
+                  (hs_state (rg_stream r)) ev Di HA) as H.
+    pose proof (step_handle_quiet names ssl (hs_id (rg_stream r)) (hs_closed (rg_stream r)) (hs_has_app (rg_stream r))
+                  (hs_has_response (rg_stream r)) (hs_status (rg_stream r)) (hs_resp_trailers (rg_stream r))
+                  (sc_ws sc0) (sc_version sc0) (sc_method sc0) (sc_scheme sc0) (sc_path sc0) (sc_raw_path sc0) (sc_query sc0)
+                  (sc_headers sc0) (sc_ext_trailers sc0) (sc_ext_push sc0) (sc_ext_hint sc0) (sc_subprotocols sc0)
+                  (hs_state (rg_stream r)) ev Di) as HQ.
+    rewrite <- Hr in H, HQ.
+    destruct (rig_step (the_cfg names ssl) (IHandle ev) r) as [[r1 o1] res1]. destruct H as (L & Dc & _ & _ & HA1 & HR1 & St1).
+    destruct HQ as (_ & _ & _ & _ & Q1 & Q2 & S1).
+    assert (AN1 : answerable (rg_stream r1)) by (unfold answerable in *; rewrite St1, HR1; exact AN).
+    destruct (IH r1 _ (conj Q1 Q2) S1 Dr HA1 AN1 NE2) as [I1 I2].
+    rewrite logs_app, discs_app. split; lia.
+  - pose proof (step_closure_app names ssl (hs_id (rg_stream r)) (hs_closed (rg_stream r)) (hs_has_app (rg_stream r))
+                  (hs_has_response (rg_stream r)) (hs_status (rg_stream r)) (hs_resp_trailers (rg_stream r))
+                  (sc_ws sc0) (sc_version sc0) (sc_method sc0) (sc_scheme sc0) (sc_path sc0) (sc_raw_path sc0) (sc_query sc0)
+                  (sc_headers sc0) (sc_ext_trailers sc0) (sc_ext_push sc0) (sc_ext_hint sc0) (sc_subprotocols sc0)
+                  (hs_state (rg_stream r)) m HA AN NE1) as H.
+    rewrite <- Hr in H.
+    destruct (rig_step (the_cfg names ssl) (IAppSend m) r) as [[r1 o1] res1]. destruct H as (L & Dc & _ & _ & HA1 & AN1 & Q1 & Q2 & S1).
+    destruct (IH r1 _ (conj Q1 Q2) S1 Dr HA1 AN1 NE2) as [I1 I2].
+    rewrite logs_app, discs_app. split; lia.
+Qed.
+
+Corollary access_at_most_once names ssl is r sc0 :
+  quiet r -> hs_scope (rg_stream r) = Some sc0 -> drives_ok is ->
+  hs_has_app (rg_stream r) = true -> answerable (rg_stream r) -> no_early_trailers (the_cfg names ssl) r is ->
+  (logs (run_outs (the_cfg names ssl) r is) + logged (hs_state (rg_stream r)) (hs_closed (rg_stream r)) <= 1)%nat /\
+  (discs (run_outs (the_cfg names ssl) r is) + b2n (hs_closed (rg_stream r)) <= 1)%nat.
+Proof.
+  intros Q S D HA AN NE. destruct (closure_once_from names ssl is r sc0 Q S D HA AN NE) as [H1 H2].
+  rewrite H1, H2. unfold logged, b2n.
+  set (r' := run_state (the_cfg names ssl) r is).
+  destruct (hs_closed (rg_stream r')); destruct (hs_state (rg_stream r')); split; lia.
 Qed.
